@@ -425,7 +425,7 @@ pub fn run(ctx: &Ctx) -> i32 {
                                     continue;
                                 }
                                 for caps in [vec![sink.min_cap()], vec![sink.min_cap() + 1], vec![]] {
-                                    let h = crate::drive_dec::DecHistory { enc, mode, sink, repl, stream: stream.clone(), cuts: cuts.clone(), last_on_empty: true, caps, fill: 0xA5, align: 0, sinks_per_call: vec![] };
+                                    let h = crate::drive_dec::DecHistory { enc, mode, sink, repl, stream: stream.clone(), cuts: cuts.clone(), last_on_empty: true, caps, fill: 0xA5, align: 0, sinks_per_call: vec![], repls_per_call: vec![] };
                                     st.evals += 1;
                                     st.nontrivial_distinct();
                                     if let Some((k, m)) = check_mid_history(&h, &mut drv, st) {
